@@ -377,6 +377,7 @@ impl Next for Prec {
 //@   spec
         ensures r is Ok ==> wf(r->Ok_0.1) && top_rank(r->Ok_0.1) == 100, //# C13 function.is_an_atom
         r is Ok ==> pe_shape(r->Ok_0.1), //# C07 function.result_shape
+        r is Err ==> r->Err_0.1.len() >= 1, //# C07 function.an_error_result_is_never_an_empty_list
 //@   endspec
 //@   loop 1
         invariant params_pt_ok(params@), //# C07 function.loop1.parameter_types_are_translatable
@@ -393,6 +394,7 @@ impl Next for Prec {
 //@   spec
         ensures r is Ok ==> wf(r->Ok_0.1) && top_rank(r->Ok_0.1) == 100, //# C13 if_expression.atom
         r is Ok ==> pe_shape(r->Ok_0.1), //# C07 if_expression.result_has_a_branch_and_shape
+        r is Err ==> r->Err_0.1.len() >= 1, //# C07 if_expression.an_error_result_is_never_an_empty_list
 //@   endspec
 //@   loop 1
         invariant
@@ -418,6 +420,7 @@ impl Next for Prec {
 //@   spec
         ensures r is Ok ==> wf(r->Ok_0.1) && top_rank(r->Ok_0.1) == 100, //# C13 case_expression.atom
         r is Ok ==> pe_shape(r->Ok_0.1), //# C07 case_expression.result_shape
+        r is Err ==> r->Err_0.1.len() >= 1, //# C07 case_expression.an_error_result_is_never_an_empty_list
 //@   endspec
 //@   loop 1
         invariant
@@ -431,6 +434,7 @@ impl Next for Prec {
 //@   spec
         ensures r is Ok ==> wf(r->Ok_0.1) && top_rank(r->Ok_0.1) == 100, //# C13 blob.atom
         r is Ok ==> pe_shape(r->Ok_0.1), //# C07 blob.result_shape
+        r is Err ==> r->Err_0.1.len() >= 1, //# C07 blob.an_error_result_is_never_an_empty_list
 //@   endspec
 //@   loop 1
         invariant
@@ -442,6 +446,7 @@ impl Next for Prec {
 //@   ret r
 //@   spec
         ensures r is Ok ==> pall_shape(r->Ok_0.1@),
+            r is Err ==> r->Err_0.1.len() >= 1, // assumed: block() fails only with the errors it collected (errs non-empty)
 //@   endspec
 //@ end
 //@ fn sylt-parser/src/parser.rs parse_type
@@ -450,6 +455,7 @@ impl Next for Prec {
 //@   spec
     // assumed: the only `Resolved` types parse_type builds are the seven primitive run-time types
     ensures r is Ok ==> pt_ok(r->Ok_0.1),
+        r is Err ==> r->Err_0.1.len() >= 1, // assumed: every failure of parse_type is one raise_syntax_error!
 //@   endspec
 //@ end
 //@ fn sylt-parser/src/parser.rs is_capitalized
@@ -457,6 +463,11 @@ impl Next for Prec {
 //@ end
 //@ fn sylt-parser/src/parser.rs type_assignable
 //@   mode assumed
+//@   ret r
+//@   spec
+    // assumed (read off the body: every failure is one raise_syntax_error! / expect!)
+    ensures r is Err ==> r->Err_0.1.len() >= 1,
+//@   endspec
 //@ end
 //@ fn sylt-parser/src/parser.rs assignable_call
 //@   props C07 C14
@@ -482,6 +493,7 @@ impl Next for Prec {
         pa_shape(callee), //# C07 assignable_call.pre.callee_shape
     ensures
         r is Ok ==> pa_shape(r->Ok_0.1), //# C07 assignable_call.result_shape
+        r is Err ==> r->Err_0.1.len() >= 1, //# C07 assignable_call.an_error_result_is_never_an_empty_list
 //@   endspec
 //@   loop 1
         invariant pexprs_shape(args@), //# C07 assignable_call.loop1.arguments_have_shape
@@ -504,6 +516,7 @@ impl Next for Prec {
         pa_shape(accessed), //# C07 assignable_dot_or_variant.pre.shape
     ensures
         r is Ok ==> pa_shape(r->Ok_0.1), //# C07 assignable_dot_or_variant.result_shape
+        r is Err ==> r->Err_0.1.len() >= 1, //# C07 assignable_dot_or_variant.an_error_result_is_never_an_empty_list
 //@   endspec
 //@ end
 //@ fn sylt-parser/src/parser.rs assignable_variant
@@ -515,6 +528,7 @@ impl Next for Prec {
         pa_shape(accessed), //# C07 assignable_variant.pre.shape
     ensures
         r is Ok ==> pa_shape(r->Ok_0.1), //# C07 assignable_variant.result_shape
+        r is Err ==> r->Err_0.1.len() >= 1, //# C07 assignable_variant.an_error_result_is_never_an_empty_list
 //@   endspec
 //@   ghost before
 //@| use AssignableKind::Variant;
@@ -531,6 +545,7 @@ impl Next for Prec {
         pa_shape(accessed), //# C07 assignable_dot.pre.shape
     ensures
         r is Ok ==> pa_shape(r->Ok_0.1), //# C07 assignable_dot.result_shape
+        r is Err ==> r->Err_0.1.len() >= 1, //# C07 assignable_dot.an_error_result_is_never_an_empty_list
 //@   endspec
 //@ end
 
@@ -544,6 +559,7 @@ impl Next for Prec {
         pa_shape(indexed), //# C07 assignable_index.pre.shape
     ensures
         r is Ok ==> pa_shape(r->Ok_0.1), //# C07 assignable_index.result_shape_index_is_int_literal
+        r is Err ==> r->Err_0.1.len() >= 1, //# C07 assignable_index.an_error_result_is_never_an_empty_list
 //@   endspec
 //@ end
 //@ fn sylt-parser/src/parser.rs sub_assignable
@@ -555,6 +571,7 @@ impl Next for Prec {
         pa_shape(assignable), //# C07 sub_assignable.pre.shape
     ensures
         r is Ok ==> pa_shape(r->Ok_0.1), //# C07 sub_assignable.result_shape
+        r is Err ==> r->Err_0.1.len() >= 1, //# C07 sub_assignable.an_error_result_is_never_an_empty_list
 //@   endspec
 //@ end
 //@ fn sylt-parser/src/parser.rs assignable
@@ -564,6 +581,7 @@ impl Next for Prec {
 //@   spec
     ensures
         r is Ok ==> pa_shape(r->Ok_0.1), //# C07 assignable.result_shape
+        r is Err ==> r->Err_0.1.len() >= 1, //# C07 assignable.an_error_result_is_never_an_empty_list
 //@   endspec
 //@ end
 
@@ -600,6 +618,7 @@ impl Next for Prec {
         r is Ok ==> tok_rank(r->Ok_0.0.tok()) < rank(prec), //# C13 parse_precedence.stops_below_prec
         r is Ok ==> tok_rank(r->Ok_0.0.tok()) <= top_rank(r->Ok_0.1), //# C13 parse_precedence.next_not_tighter
         r is Ok ==> pe_shape(r->Ok_0.1), //# C07 parse_precedence.result_shape
+        r is Err ==> r->Err_0.1.len() >= 1, //# C07 parse_precedence.an_error_result_is_never_an_empty_list
 //@   endspec
 //@   loop 1
         invariant
@@ -618,6 +637,7 @@ impl Next for Prec {
 //@   spec
     ensures r is Ok ==> wf(r->Ok_0.1) && top_rank(r->Ok_0.1) == 100, //# C13 value.atom
         r is Ok ==> pe_shape(r->Ok_0.1), //# C07 value.result_shape
+        r is Err ==> r->Err_0.1.len() >= 1, //# C07 value.an_error_result_is_never_an_empty_list
 //@   endspec
 //@ end
 
@@ -628,6 +648,7 @@ impl Next for Prec {
 //@   spec
     ensures r is Ok ==> wf(r->Ok_0.1) && top_rank(r->Ok_0.1) == 100, //# C13 prefix.atom
         r is Ok ==> pe_shape(r->Ok_0.1), //# C07 prefix.result_shape
+        r is Err ==> r->Err_0.1.len() >= 1, //# C07 prefix.an_error_result_is_never_an_empty_list
 //@   endspec
 //@ end
 
@@ -641,6 +662,7 @@ impl Next for Prec {
         r is Ok ==> (r->Ok_0.1.kind is Neg || r->Ok_0.1.kind is Not), //# C13 unary.node_kind
         r is Ok ==> (ctx.tok() is Minus <==> r->Ok_0.1.kind is Neg), //# C13 unary.minus_is_neg
         r is Ok ==> pe_shape(r->Ok_0.1), //# C07 unary.result_shape
+        r is Err ==> r->Err_0.1.len() >= 1, //# C07 unary.an_error_result_is_never_an_empty_list
 //@   endspec
 //@ end
 
@@ -652,6 +674,7 @@ impl Next for Prec {
     requires pe_shape(*lhs), //# C07 arrow_call.pre.lhs_shape
     ensures r is Ok ==> wf(r->Ok_0.1) && top_rank(r->Ok_0.1) == 100, //# C13 arrow_call.atom
         r is Ok ==> pe_shape(r->Ok_0.1), //# C07 arrow_call.result_shape
+        r is Err ==> r->Err_0.1.len() >= 1, //# C07 arrow_call.an_error_result_is_never_an_empty_list
 //@   endspec
 //@   inner prepend_expresion
 //@   attr #[verifier::exec_allows_no_decreases_clause]
@@ -662,6 +685,7 @@ impl Next for Prec {
             r is Ok ==> pe_shape(r->Ok_0.1), //# C07 prepend.result_shape
             r is Ok ==> r->Ok_0.1.span == ctx.span_s() && r->Ok_0.1.ty is None, //# C07 arrow_call.spec.aux1
             r is Ok ==> Some(r->Ok_0.1.kind) == prepend_kind(ctx.span_s(), lhs, rhs), //# C14 prepend.receiver_becomes_the_first_argument_of_the_innermost_call
+            r is Err ==> r->Err_0.1.len() >= 1, //# C07 prepend_expresion.an_error_result_is_never_an_empty_list
             r is Err <==> prepend_kind(ctx.span_s(), lhs, rhs) is None, //# C14 prepend.only_calls_can_follow_an_arrow
 //@   endspec
 //@   endinner
@@ -688,6 +712,7 @@ impl Next for Prec {
         r is Ok ==> node_matches(ctx.tok(), r->Ok_0.1, *lhs), //# C13 infix.node_matches_operator
         r is Ok && binop_rank(ctx.tok()) >= 0 ==> top_rank(rhs_of(r->Ok_0.1)) > binop_rank(ctx.tok()), //# C13 infix.right_operand_tighter
         r is Ok ==> pe_shape(r->Ok_0.1), //# C07 infix.result_shape
+        r is Err ==> r->Err_0.1.len() >= 1, //# C07 infix.an_error_result_is_never_an_empty_list
 //@   endspec
 //@ end
 
@@ -698,6 +723,7 @@ impl Next for Prec {
 //@   spec
     ensures r is Ok ==> wf(r->Ok_0.1) && top_rank(r->Ok_0.1) == 100, //# C13 grouping.atom_inside_wf
         r is Ok ==> pe_shape(r->Ok_0.1), //# C07 grouping_or_tuple.result_shape
+        r is Err ==> r->Err_0.1.len() >= 1, //# C07 grouping_or_tuple.an_error_result_is_never_an_empty_list
 //@   endspec
 //@   rewrite rule:R-bor
 //@-                 is_tuple |= matches!(ctx.token(), T::Comma);
@@ -722,6 +748,7 @@ impl Next for Prec {
 //@   spec
     ensures r is Ok ==> wf(r->Ok_0.1) && top_rank(r->Ok_0.1) == 100, //# C13 list.atom_inside_wf
         r is Ok ==> pe_shape(r->Ok_0.1), //# C07 list.result_shape
+        r is Err ==> r->Err_0.1.len() >= 1, //# C07 list.an_error_result_is_never_an_empty_list
 //@   endspec
 //@   loop 1
         invariant wf_all(exprs@), //# C13 list.loop.members_wf
@@ -738,6 +765,7 @@ impl Next for Prec {
         r is Ok ==> wf(r->Ok_0.1), //# C13 expression.wf
         r is Ok ==> binop_rank(r->Ok_0.0.tok()) < 0, //# C13 expression.consumes_all_operators
         r is Ok ==> pe_shape(r->Ok_0.1), //# C07 expression.result_shape
+        r is Err ==> r->Err_0.1.len() >= 1, //# C07 expression.an_error_result_is_never_an_empty_list
 //@   endspec
 //@ end
 
